@@ -244,9 +244,25 @@ func verifFlat(s string) string {
 var verifC01Fmt [4][]parser.Statement
 var verifC01FmtSel [4][]parser.Statement
 var verifC01FmtFile = [4]string{"j.jsonl", "k.json", "l.ltsv", "m.tsv"}
-var verifC01FmtOld = [4]string{"{\"id\":1,\"v\":\"a\"}\n", "[{\"id\":1,\"v\":\"a\"}]", "id:1\tv:a\n", "id\tv\n1\ta\n"}
+var verifC01FmtOld [4]string
+
+// 40 records before the INSERT: the encoders look at the context every few records (the LTSV and CSV
+// encoders every 16th), so that an interrupt can strike in the middle of the table
+const verifC01FmtRows = 40
 
 func VerifC01FormatsSetup() {
+	for r := 1; r <= verifC01FmtRows; r++ {
+		id := string(rune('0'+r/10)) + string(rune('0'+r%10))
+		verifC01FmtOld[0] += "{\"id\":\"" + id + "\",\"v\":\"a\"}\n"
+		if r > 1 {
+			verifC01FmtOld[1] += ","
+		}
+		verifC01FmtOld[1] += "{\"id\":\"" + id + "\",\"v\":\"a\"}"
+		verifC01FmtOld[2] += "id:" + id + "\tv:a\n"
+		verifC01FmtOld[3] += id + "\ta\n"
+	}
+	verifC01FmtOld[1] = "[" + verifC01FmtOld[1] + "]"
+	verifC01FmtOld[3] = "id\tv\n" + verifC01FmtOld[3]
 	for i, f := range verifC01FmtFile {
 		verifC01Fmt[i] = verifParse("insert into `" + f + "` values (2, 'b'), (3, 'c');")
 		verifC01FmtSel[i] = verifParse("select id, v from `" + f + "`;")
@@ -265,7 +281,7 @@ func VerifC01InterruptedFormats() {
 	tx.Flags.Quiet = true
 	tx.AutoCommit = true
 	proc := NewProcessor(tx)
-	ctx := &verifCancelCtx{ch: make(chan struct{}, 1), at: 1 + verifChoice("cancel-at", verifBound(16, 32))}
+	ctx := &verifCancelCtx{ch: make(chan struct{}, 1), at: 1 + verifChoice("cancel-at", verifBound(24, 48))}
 	_, err := proc.Execute(ctx, verifC01Fmt[fi])
 	e1 := proc.AutoRollback()
 	e2 := proc.ReleaseResourcesWithErrors()
@@ -277,7 +293,7 @@ func VerifC01InterruptedFormats() {
 		tx2.Flags.Quiet = true
 		proc2 := NewProcessor(tx2)
 		_, e := proc2.Execute(ContextForStoringResults(verifCtx()), verifC01FmtSel[fi])
-		verifAssert("a changed file is the complete new table", e == nil && len(tx2.SelectedViews) == 1 && tx2.SelectedViews[0].RecordLen() == 3)
+		verifAssert("a changed file is the complete new table", e == nil && len(tx2.SelectedViews) == 1 && tx2.SelectedViews[0].RecordLen() == verifC01FmtRows+2)
 		_ = proc2.ReleaseResourcesWithErrors()
 	} else {
 		verifAssert("an unchanged file belongs to a run that failed", err != nil)
